@@ -115,6 +115,16 @@ func c01Exec(c *mon.Case) {
 	}
 }
 
+func c01Sample(payload string) any {
+	parts := strings.SplitN(payload, "\x00", 5)
+	if parts[0] != "tree" {
+		return map[string]any{"token string": parts[2], "variables": decEnv(parts[3]).String()}
+	}
+	seed, _ := strconv.ParseUint(parts[2], 10, 64)
+	tree := decNode(parts[3])
+	return map[string]any{"manager": parts[1], "printings": printings(tree, seed), "variables": decEnv(parts[4]).String()}
+}
+
 func buildC01(cfg *mon.Config) []*mon.Sub {
 	rule := "each tree is printed four ways (minimal parentheses with single blanks; fully parenthesised; random redundant parentheses + random spacing/line breaks + /* */ comments + random keyword case; tight lower-case) and every printing must (1) be accepted, (2) compile to the post-order program of the tree (arguments, argument count, function), (3) evaluate under the variable assignment to exactly the value (type and payload) or the error code obtained by evaluating the tree directly with the same manager's variant operations in written operand order (IN with swapped container/probe, NOT IN = negated IN, IS [NOT] NULL, unary plus = identity); non-trivial = at least two operators, distinct by hash of (tree, assignment)"
 	typed := &mon.Sub{
@@ -133,7 +143,7 @@ func buildC01(cfg *mon.Config) []*mon.Sub {
 				emit("tree\x00" + mgr + "\x00" + strconv.FormatUint(r.Next()%1000000, 10) + "\x00" + encNode(t) + "\x00" + encEnv(e))
 			}
 		},
-		Exec: c01Exec,
+		Exec: c01Exec, Sample: c01Sample,
 		Final: func(r *mon.SubReport) string {
 			if r.Counters["evaluated-to-a-value"] < r.Evaluations/4 {
 				return fmt.Sprintf("only %d of %d evaluations produced a value", r.Counters["evaluated-to-a-value"], r.Evaluations)
@@ -153,7 +163,7 @@ func buildC01(cfg *mon.Config) []*mon.Sub {
 				emit("tree\x00unsafe\x00" + strconv.FormatUint(r.Next()%1000000, 10) + "\x00" + encNode(t) + "\x00" + encEnv(e))
 			}
 		},
-		Exec: c01Exec,
+		Exec: c01Exec, Sample: c01Sample,
 		Final: func(r *mon.SubReport) string {
 			if n := len(r.Tables["binary-operator-pairs(parent,child,side)"]); n < 22*22*2 {
 				return fmt.Sprintf("operator pair table incomplete: %d of %d (parent, child, side) combinations observed", n, 22*22*2)
@@ -195,7 +205,7 @@ func buildC01(cfg *mon.Config) []*mon.Sub {
 				emit("toks\x00unsafe\x00" + strings.Join(parts, " ") + "\x00" + ee)
 			})
 		},
-		Exec: c01Exec,
+		Exec: c01Exec, Sample: c01Sample,
 	}
 	return []*mon.Sub{typed, shape, small}
 }
